@@ -15,20 +15,20 @@ pub fn def() -> CheckDef {
         level: "exploration",
         assumptions: &["monotone simulated clock", "live dump through hook H1 reads the cache only", "no storage errors are injected"],
         probes: &["probe.action_with_open_sibling", "probe.ended_not_completed", "probe.late_action_after_end"],
-        quick_cases: 3000,
+        quick_cases: 6000,
         no_shrink: &[],
     }
 }
 
 const OPTS: LifeOpts = LifeOpts {
     catches: false,
-    scripted_actions: &["abort", "skip", "error", "back", "cancel", "submit", "remove", "complete"],
+    scripted_actions: &["cancel_prev", "abort", "skip", "error", "back", "cancel", "submit", "remove", "complete"],
     p_scripted: 400,
     adversary: Some((150, 6, &SEVEN)),
     dup: true,
     generators: true,
     hooks: false,
-    outputs: false,
+    outputs: false, drop_outputs: true
 };
 
 pub fn case(ctx: &mut CaseCtx) -> CaseOut {
@@ -89,12 +89,13 @@ pub fn hierarchy_oracle(sc: &Scenario, rec: &RunRecord) -> Vec<Violation> {
     for q in &rec.qpoints {
         for p in &q.live {
             // (a) a successfully completed composite has only terminal tasks beneath it
-            for t in p.tasks.iter().filter(|t| t.state == "completed" && composite(t)) {
-                if imgx::under_hook_task(p, t) {
+            // (walk up from the few open tasks instead of down from every completed one)
+            for d in p.tasks.iter().filter(|d| !is_terminal_state(&d.state)) {
+                if imgx::under_hook_task(p, d) {
                     continue;
                 }
-                for d in imgx::beneath(p, t) {
-                    if !is_terminal_state(&d.state) && !imgx::under_hook_task(p, d) {
+                for t in imgx::ancestors(p, d) {
+                    if t.state == "completed" && composite(t) && !imgx::under_hook_task(p, t) {
                         let sig = json!({"after_action": last_special_action(rec, q.seq), "next_jump_model": has_jump});
                         out.push(Violation::new(
                             "C03",
